@@ -42,9 +42,10 @@ NPROC = min(16, os.cpu_count() or 4)
 # quick tier: entries every traversal / decoder hangs on - all their retype faults are applied, not a sample
 IMPORTANT_KEYS = {"DescendantFonts", "Kids", "Contents", "Resources", "Font", "Encoding", "ToUnicode", "W", "Widths",
                   "Length", "Filter", "DecodeParms", "Root", "Pages", "Prev", "XRefStm", "Index", "Encrypt", "ID"}
-IMPORTANT_SITES_PER_ROLE = 2
+REF_PARENTS = {"XObject", "Font", "Kids", "Contents", "DescendantFonts"}
+IMPORTANT_SITES_PER_ROLE = 1
 # quick tier: faults sampled per (seed, class, kind) stratum
-QUICK_PER_STRATUM = {"value": 3, "payload": 8, "file": 25, "xrefent": 2}
+QUICK_PER_STRATUM = {"value": 3, "payload": 8, "file": 25, "xrefent": 2, "multi": 2}
 
 
 # ------------------------------------------------------------------------------------------------ Faults.tla
@@ -72,7 +73,7 @@ def enumerate_faults(ck, descs, variants=(0, 1), pstride=1, fstride=1, coverage=
     cfg = write_cfg(os.path.join(ck.tmp, "faults.cfg"),
                     constants={"Seeds": "<- GenSeeds", "Variants": "<- GenVariants", "PayloadStride": pstride,
                                "FileStride": fstride},
-                    invariants=["Applicable", "Damaging", "CountedExactly", "KindsPresent"], constraints=["Emit"])
+                    invariants=["Applicable", "Damaging", "ModeOK", "CountedExactly", "KindsPresent"], constraints=["Emit"])
     emit = os.path.join(ck.tmp, "faults.ndjson")
     res = run_tlc(mc, cfg, emit=emit, coverage=coverage, timeout=1800, allow_violation=False)
     ck.add_tlc(res, label)
@@ -93,7 +94,7 @@ def enumerate_faults(ck, descs, variants=(0, 1), pstride=1, fstride=1, coverage=
 
 
 def stratum(fd):
-    return (fd["cls"], fd["kind"], fd.get("to", ""))
+    return (fd["cls"], fd["kind"], fd.get("to", ""), fd.get("mode") == "nocache")
 
 
 def sample_faults(faults, seed, descs):
@@ -109,7 +110,7 @@ def sample_faults(faults, seed, descs):
     groups = collections.OrderedDict()
     out = []
     # important entries: per seed, key and kind of owner (object / object stream / xref stream / trailer - different
-    # code reads them) the first IMPORTANT_SITES_PER_ROLE sites in file order get the full treatment
+    # code reads them) the first IMPORTANT_SITES_PER_ROLE site(s) in file order get the full treatment
     important = set()
     for d in descs:
         per_role = collections.Counter()
@@ -120,7 +121,19 @@ def sample_faults(faults, seed, descs):
                 per_role[role] += 1
                 if per_role[role] <= IMPORTANT_SITES_PER_ROLE:
                     important.add((d["name"], x["id"]))
+    # entries that hold the references the traversals follow (and the elements / members of such arrays and
+    # dictionaries): the reference is pointed at its own object (what that closes - a page tree, form or font cycle -
+    # depends on the object), with the caches on and off, at every such site
+    cyc_sites = set()
+    for d in descs:
+        for x in d["sites"]:
+            parts = x["id"].split("/")
+            if len(parts) >= 2 and (parts[-1] in IMPORTANT_KEYS or (len(parts) > 2 and parts[-2] in REF_PARENTS)):
+                cyc_sites.add((d["name"], x["id"]))
     for s, fd in faults:
+        if fd["kind"] == "ref_self" and (s, fd["site"]) in cyc_sites:
+            out.append((s, fd))
+            continue
         if fd["kind"] == "retype" and (s, fd["site"]) in important:
             # structurally important entries: every retype representative (empty and non-empty array / dictionary /
             # string, scalars, each also behind a reference) is applied in every quick run
@@ -180,7 +193,7 @@ def _work(chunk):
         except MachineryError as e:
             out.append((name, fd, -1, str(e), False))
             continue
-        rs = faultrun.run_all(data)
+        rs = faultrun.run_all(data, caching=not f.nocache)
         obs = False
         rows = []
         for i, (e, oc, lines, detail) in enumerate(rs):
@@ -298,7 +311,7 @@ def replay(path):
     data, _ = assemble(seeds[case["seed"]], f)
     bad = False
     print("seed %s damaged by %s: %d bytes, budget %d lines" % (case["seed"], f.key(), len(data), faultrun.budget_for(data)))
-    for (e, oc, lines, detail) in faultrun.run_all(data):
+    for (e, oc, lines, detail) in faultrun.run_all(data, caching=not f.nocache):
         print("  %-24s %-50s %8d lines  %s" % (e, oc, lines, "" if oc == "ok" else str(detail)[:200]))
         bad = bad or oc.split(":")[0] not in ("ok", "family")
     if bad:
